@@ -310,7 +310,11 @@ P('C16', claimed=True, level='other',
               '_find_next (entry right after the block at addr, else the first non-empty slot above addr up to '
               'the high-water mark, None beyond the table) and _find_previous (nearest non-empty slot below addr '
               'inside the partition) with quantified loop invariants over an uninterpreted block table, and '
-              '_split (first n slots and the rest entered in the table, free lists and high-water mark). The '
+              '_split (first n slots and the rest entered in the table, free lists and high-water mark), '
+              '_find_available (an exact-size freed block, else a larger freed one, else the untouched area at '
+              'the high-water mark, "no space" only when that is too small or in use) and free (no effect unless '
+              'the address holds a used block; released and booked; the block joined with a free previous '
+              'neighbour is the one carried into the search for and the join with the next neighbour). The '
               'ContiguousBlockAllocator as a whole is checked against an interval-set model over ALL '
               'histories of length <= 7 and ALL internal tie-breaks (bounded, exhaustive small scope), '
               'plus bus/buffer objects per client.'),
